@@ -229,7 +229,7 @@ class Gen:
             v = r.choice(vars_)
             elems = r.sample(["'a'", "'b'", "'cc'", "'dd'", "'e'", "None", "b'x'", "b'yy'", "1", "2.5", "'zeta'", "'omega'", "(1, 'a')", "True"], r.randrange(2, 7))
             disp = "{" + ", ".join(elems) + "}"
-            form = r.randrange(6)
+            form = r.randrange(8)
             if form == 0:
                 self.emit(ind, f"if {v} in {disp}:")
                 self.emit(ind + 1, f"reveal_type({v})")
@@ -245,8 +245,16 @@ class Gen:
                 self.emit(ind, f"reveal_type(frozenset({disp}))")
             elif form == 4:
                 self.emit(ind, f"if {v} not in {disp}: reveal_type({v})")
-            else:
+            elif form == 5:
                 self.emit(ind, f"helper({disp}, zz={disp})")
+            else:
+                # a set literal as a MEMBER of a union (displayed through the union's own text)
+                t = r.choice(NAMES[:10])
+                other = r.choice(["None", "frozenset({'p', 'q', 'rr'})", "{'x', 'yy', 'zzz'}", "1"])
+                self.emit(ind, f"{t} = {r.choice(['', 'frozenset('])}{disp}{')' if False else ''} if {v} else {other}".replace("frozenset({", "frozenset({").replace("} if", "} if"))
+                self.emit(ind, f"reveal_type({t})")
+                if t not in vars_:
+                    vars_.append(t)
         elif k == 10 and r.random() < 0.45:
             # a plain string that looks like an f-string: every name is looked up (and marked
             # as used) until the first unknown one
@@ -506,6 +514,57 @@ class Gen:
         self.emit(2, f"reveal_type(self.{r.choice(GLOBAL_NAMES)})")
         self.emit(0, "")
 
+    def rebind_section(self):
+        """Functions (never called at import) that rebind / delete / augment names of builtins and
+        of shared imported modules for THEIR OWN module through global / nonlocal / del / import-as /
+        attribute assignment, next to ordinary uses of the same names.  What one program does to
+        `len` or `os.sep` must not be visible in another program."""
+        r = self.rng
+        self.features.add("rebind")
+        names = r.sample(["input", "len", "print", "sorted", "max", "abs", "range", "isinstance", "callable", "str", "int", "open", "repr"], r.randrange(1, 4))
+        for nm in names:
+            fn = self.fresh("rb")
+            form = r.randrange(6)
+            self.emit(0, f"def {fn}(v=None):")
+            if form == 0:
+                self.emit(1, f"global {nm}")
+                self.emit(1, f"{nm} = {r.choice(['None', '3', 'lambda *a: 0', 'v'])}")
+            elif form == 1:
+                self.emit(1, f"global {nm}")
+                self.emit(1, f"del {nm}")
+            elif form == 2:
+                self.emit(1, f"global {nm}")
+                self.emit(1, f"import os as {nm}")
+            elif form == 3:
+                self.emit(1, f"global {nm}")
+                self.emit(1, f"{nm} += 1")
+            elif form == 4:
+                self.emit(1, f"{nm} = 1")
+                self.emit(1, "def inner():")
+                self.emit(2, f"nonlocal {nm}")
+                self.emit(2, f"{nm} = 'shadow'")
+                self.emit(1, f"return inner, {nm}")
+            else:
+                self.emit(1, f"global {nm}")
+                self.emit(1, f"for {nm} in (1, 2): pass")
+        mod = r.choice(["os", "sys", "typing"])
+        attr = {"os": ["sep", "name", "getcwd", "path"], "sys": ["maxsize", "platform", "argv"], "typing": ["TYPE_CHECKING", "Any"]}[mod]
+        fn = self.fresh("patch")
+        self.emit(0, f"import {mod}")
+        self.emit(0, f"def {fn}():")
+        self.emit(1, f"{mod}.{r.choice(attr)} = {r.choice(['None', '3', chr(39) + 'x' + chr(39)])}")
+        self.emit(1, f"del {mod}.{r.choice(attr)}")
+        # ordinary uses of builtin and module names
+        use = self.fresh("useb")
+        self.emit(0, f"def {use}(xs: list, s: str):")
+        for nm in r.sample(["input", "len", "print", "sorted", "max", "abs", "range", "isinstance", "callable", "str", "int", "repr"], 5):
+            call = {"input": "input('x').strip()", "len": "len(xs) + 1", "print": "print(s)", "sorted": "sorted(xs)", "max": "max(xs)", "abs": "abs(-1) + 1",
+                    "range": "list(range(3))", "isinstance": "isinstance(s, str)", "callable": "callable(s)", "str": "str(1).upper()", "int": "int(s) + 1",
+                    "repr": "repr(xs).strip()"}[nm]
+            self.emit(1, f"reveal_type({call})")
+        self.emit(1, f"reveal_type({mod}.{r.choice(attr)})")
+        self.emit(0, "")
+
     def library_section(self, libs=None):
         """The same library objects used in different contexts: bare expression statement,
         argument of a stub-typed parameter, annotation, base class, isinstance, return value.
@@ -583,7 +642,8 @@ class Gen:
         pieces = [self.flow_function] * 5 + [self.call_section, self.protocol_section, self.overload_section,
                                              self.typevar_section, self.typeddict_section, self.class_section,
                                              self.global_section, self.global_section,
-                                             self.library_section, self.library_section, self.library_section]
+                                             self.library_section, self.library_section, self.library_section,
+                                             self.rebind_section, self.rebind_section]
         for _ in range(r.randrange(3, 7)):
             r.choice(pieces)()
         return "\n".join(self.lines) + "\n", sorted(self.features)
